@@ -5,7 +5,7 @@ reconstruction law for each shape of notification, `dict_event_factory`.
 import TraitsVerif.Model.TraitDict
 import TraitsVerif.Lemmas.MapDict
 set_option linter.unusedSectionVars false
-namespace TraitsVerif.Model
+namespace TraitsVerif.Model.Map
 open TraitsVerif TraitsVerif.Py
 open TraitsVerif.Py.Dict
 variable {K V : Type} [DecidableEq K]
@@ -321,4 +321,4 @@ theorem notifyAllProg_body (post : Dict K V) (ns : List NotifierKind) (t : Tripl
       | error e => rfl
       | ok r => simp only [ih]
 
-end TraitsVerif.Model
+end TraitsVerif.Model.Map
